@@ -494,7 +494,7 @@ package mcp
 //@ func httpServerHandler.handlePostRequest
 //@   requires status(w) == 0
 //@   before call (net/http.Header).Set#1 assert[C04 session-header-only-in-stateful-mode] !h.isStateless
-//@   modifies *, status(w), hval, handled
+//@   modifies *, status(w), hval, handled, lastres, lasterr
 //@   ensures[C03,C06] status(w) != 0
 //@ func httpServerHandler.handlePostNotification
 //@   requires status(w) == 0
@@ -732,3 +732,79 @@ package mcp
 //@   pure
 //@   ensures[C13] !isnil(result) && ctxparent(result) == ctx
 //@   ensures[C13] forall k interface{} :: k != box(serverContextKey) ==> ctxval(result, k) == ctxval(ctx, k)
+
+// ---------------------------------------------------------------------------
+// C14 — all transports answer alike: both dispatchers are proved against one
+// table entryOf(method) -> manager entry point (one ghost call counter per
+// entry point), and the three wrappers map (result, error) to the same envelope
+// classes.  C15/C03: a handler error never leads to a success response.
+
+//@ ghost stable c_init int
+//@ ghost stable c_tlist int
+//@ ghost stable c_tcall int
+//@ ghost stable c_plist int
+//@ ghost stable c_pget int
+//@ ghost stable c_rlist int
+//@ ghost stable c_rread int
+//@ ghost stable lasterr error
+//@ ghost stable lastres interface{}
+//@
+//@ fun entryOf(m string) int = m == "initialize" ? 1 : (m == "tools/list" ? 2 : (m == "tools/call" ? 3 : (m == "prompts/list" ? 4 : (m == "prompts/get" ? 5 : (m == "resources/list" ? 6 : (m == "resources/read" ? 7 : (m == "ping" ? 8 : 0)))))))
+//@ pred onlyEntry(k int) = c_init == old(c_init) + (k == 1 ? 1 : 0) && c_tlist == old(c_tlist) + (k == 2 ? 1 : 0) && c_tcall == old(c_tcall) + (k == 3 ? 1 : 0) && c_plist == old(c_plist) + (k == 4 ? 1 : 0) && c_pget == old(c_pget) + (k == 5 ? 1 : 0) && c_rlist == old(c_rlist) + (k == 6 ? 1 : 0) && c_rread == old(c_rread) + (k == 7 ? 1 : 0)
+//@
+//@ func lifecycleManager.handleInitialize
+//@   counted c_init
+//@ func toolManager.handleListTools
+//@   counted c_tlist
+//@ func toolManager.handleCallTool
+//@   counted c_tcall
+//@   modifies *, c_tcall
+//@ func promptManager.handleListPrompts
+//@   counted c_plist
+//@   modifies *, c_plist
+//@ func promptManager.handleGetPrompt
+//@   counted c_pget
+//@   modifies *, c_pget
+//@ func resourceManager.handleListResources
+//@   counted c_rlist
+//@   modifies *, c_rlist
+//@ func resourceManager.handleReadResource
+//@   counted c_rread
+//@   modifies *, c_rread
+//@
+//@ func mcpHandler.dispatchRequest
+//@   ensures[C14 shared-methods-reach-the-same-manager-entry-point-once] entryOf(old(req.Method)) != 0 ==> onlyEntry(entryOf(old(req.Method)))
+//@   ensures[C14 unserved-methods-reach-no-entry-point] !served(old(req.Method)) ==> onlyEntry(0)
+//@
+//@ func stdioServerInternal.HandleRequest
+//@   before call handleInitialize#1 assert[C14 same-entry-point-as-the-http-dispatcher] entryOf(request.Method) == 1
+//@   before call handleListTools#1 assert[C14 same-entry-point-as-the-http-dispatcher] entryOf(request.Method) == 2
+//@   before call handleCallTool#1 assert[C14 same-entry-point-as-the-http-dispatcher] entryOf(request.Method) == 3
+//@   before call handleListPrompts#1 assert[C14 same-entry-point-as-the-http-dispatcher] entryOf(request.Method) == 4
+//@   before call handleGetPrompt#1 assert[C14 same-entry-point-as-the-http-dispatcher] entryOf(request.Method) == 5
+//@   before call handleListResources#1 assert[C14 same-entry-point-as-the-http-dispatcher] entryOf(request.Method) == 6
+//@   before call handleReadResource#1 assert[C14 same-entry-point-as-the-http-dispatcher] entryOf(request.Method) == 7
+//@   before call handlePing#1 assert[C14 same-entry-point-as-the-http-dispatcher] entryOf(request.Method) == 8
+//@   before call newJSONRPCErrorResponse#2 assert[C14,C03 unserved-method-is-method-not-found] entryOf(request.Method) == 0 && arg1 == ErrCodeMethodNotFound && arg0 == request.ID
+//@   before call newJSONRPCErrorResponse#3 assert[C14,C03 handler-error-is-internal-error-with-the-request-id] err != nil && arg1 == ErrCodeInternal && arg0 == request.ID
+//@   before call newJSONRPCResponse#1 assert[C14,C03,C01 success-envelope-only-without-handler-error-and-with-the-request-id] err == nil && arg0 == request.ID && arg1 == $result
+//@
+//@ func requestHandler.handleRequest
+//@   records lastres ret0
+//@   records lasterr ret1
+//@   modifies *, handled, lastres, lasterr
+//@ func mcpHandler.handleRequest
+//@   records lastres ret0
+//@   records lasterr ret1
+//@
+//@ func httpServerHandler.handlePostRequest
+//@   before call respond#1 assert[C14,C15,C03 handler-error-is-internal-error-with-the-request-id] !isnil(lasterr) && arg4 == asany(errorResp) && errorResp.Error.Code == ErrCodeInternal && errorResp.ID == req.ID
+//@   before call respond#2 assert[C14,C03 error-object-passed-through] isnil(lasterr) && arg4 == lastres
+//@   before call respond#3 assert[C14,C15,C03,C01 success-envelope-only-without-handler-error-and-with-the-request-id] isnil(lasterr) && jsonrpcResponse.ID == req.ID && jsonrpcResponse.Result == lastres && jsonrpcResponse.JSONRPC == "2.0"
+//@   before call respond#4 assert[C14,C15,C03 handler-error-is-internal-error-with-the-request-id] !isnil(lasterr) && arg4 == asany(errorResp) && errorResp.Error.Code == ErrCodeInternal && errorResp.ID == req.ID
+//@   before call respond#5 assert[C14,C03 error-object-passed-through] isnil(lasterr) && arg4 == lastres
+//@   before call respond#6 assert[C14,C15,C03,C01 success-envelope-only-without-handler-error-and-with-the-request-id] isnil(lasterr) && jsonrpcResponse.ID == req.ID && jsonrpcResponse.Result == lastres && jsonrpcResponse.JSONRPC == "2.0"
+//@
+//@ func SSEServer.processRequestAsync
+//@   before call handleRequestError#1 assert[C14,C15,C03 handler-error-is-reported-with-the-request-id] !isnil(lasterr) && arg1 == asany(lasterr) && arg2 == request.ID
+//@   before call sendSuccessResponse#1 assert[C14,C15,C03,C01 success-envelope-only-without-handler-error-and-with-the-request-id] isnil(lasterr) && arg1 == request.ID && arg2 == lastres
